@@ -158,6 +158,11 @@ def translate_pattern(pattern: str, flags: int = 0, xsd_version: str = '1.0',
                 # so encapsulate '^'/'$' inside a non-capturing group.
                 regex[-1] = f'(?:{regex[-1]})'
 
+            min_occurs, _, max_occurs = match.group()[1:-1].partition(',')
+            if max_occurs and int(min_occurs) > int(max_occurs):
+                msg = "invalid quantifier {!r} at position {}: {!r}"
+                raise RegexError(msg.format(match.group(), pos, pattern))
+
             regex.append(match.group())
             pos += len(match.group())
             if pos < pattern_len and pattern[pos] in '?+*':
@@ -212,6 +217,9 @@ def translate_pattern(pattern: str, flags: int = 0, xsd_version: str = '1.0',
             if pos >= pattern_len:
                 regex.append('\\')
             elif pattern[pos].isdigit():
+                if not 0 < int(pattern[pos]) <= total_groups:
+                    msg = "back-reference to a missing group at position {}: {!r}"
+                    raise RegexError(msg.format(pos - 1, pattern))
                 regex.append('\\%s' % pattern[pos])
                 reference = DIGITS_PATTERN.match(pattern[pos:]).group()  # type: ignore[union-attr]
                 if len(reference) > 1:
